@@ -20,9 +20,9 @@ open SpyneModel.Derive SpyneModel.Generated
 
 /-- the switches measured on /repo have their good values: Mandatory copies, every class owns its `_variants`,
     a derived class gets a deep copy of `sqla_column_args` -/
-theorem good_facts : GoodFacts facts15 := ⟨by decide, by decide, by decide, by decide, by decide⟩
+theorem good_facts : GoodFacts facts15 := ⟨by decide, by decide, by decide, by decide, by decide, by decide⟩
 
-instance : DeepCopy facts15 := ⟨by decide, by decide⟩
+instance : DeepCopy facts15 := ⟨by decide, by decide, by decide⟩
 
 /-! ### histories keep the variants discipline -/
 
@@ -61,6 +61,29 @@ theorem frame_step_obs (fuel : Nat) (h : Heap) (ih : Inv h) (op : Op) (c : Nat) 
 theorem deriving_touches_nothing (h : Heap) (op : Op) (hop : op.derives = true) : touched facts15 h op = [] := by
   cases op <;> simp [touched, Op.derives] at hop ⊢
   decide
+
+/-- a class statement is entitled to change one existing class only: the one it extends (whose `_subclasses` list
+    gets the new class); customising that subclass later - customize, child attributes, Mandatory, Array - is a
+    deriving operation and touches nothing (`deriving_touches_nothing`), so the base's `_subclasses` stay as they are -/
+theorem class_statement_touches_base_only (h : Heap) (base : Option Nat) (name : String) (ns : Option String)
+    (fields : List (String × Nat)) (perm : List Nat) (attrs : Option Kw) (mixins : List Nat) (asMixin : Bool) (x : Nat)
+    (hx : x ∈ touched facts15 h (.subclass base name ns fields perm attrs mixins asMixin)) :
+    ∃ bc, h.cls[base.getD facts15.complexRoot]? = some bc
+      ∧ subclassExtends (base.getD facts15.complexRoot) bc = .ok (some x) := by
+  simp only [touched] at hx
+  cases hb : h.cls[base.getD facts15.complexRoot]? with
+  | none => simp [hb] at hx
+  | some bc =>
+    simp only [hb] at hx
+    cases hs : subclassExtends (base.getD facts15.complexRoot) bc with
+    | error e => simp [hs] at hx
+    | ok ext =>
+      cases ext with
+      | none => simp [hs] at hx
+      | some e =>
+        simp only [hs, List.mem_singleton] at hx
+        subst hx
+        exact ⟨bc, rfl, hs⟩
 
 /-- append_field / insert_field are entitled to change the class and its own customised variants only -/
 theorem evolving_touches_class_and_variants (fuel : Nat) (ops : List Op) (c : Nat) (name : String) (t x : Nat)
@@ -303,7 +326,7 @@ theorem class_statement_seed_independent (op1 op2 : List Nat) (base : Option Nat
     simp only [declaredFields]
     have : facts15.dictOrdered = true := by decide
     simp [this]
-  simp only [subclassOp, this]
+  simp only [subclassOp, subclassRest, this]
 
 /-- `customize(prot=p)`: the protocol's `type_attrs` dict is what it was, after any operation -/
 theorem protocol_defaults_untouched (fuel : Nat) (h : Heap) (ih : Inv h) (op : Op) :
@@ -349,6 +372,14 @@ example : ((s7.heap.cls[23]?).bind (fun c => (c.fields.head?).map (fun p => attr
     = some (some (.int 1)) := by decide +kernel
 -- Integer32(ge=0) keeps the length guard of Integer32
 example : attrOf s8.heap 25 "max_str_len" = attrOf s8.heap 3 "max_str_len" ∧ attrOf s8.heap 25 "ge" = some (.int 0) := by
+  decide +kernel
+-- class Base; class Sub(Base); Sub.customize(...), Mandatory(Sub), Array(Sub): Base's `_subclasses` stay [Sub]
+def b1 := apply facts15 1000 (initHeap facts15) (.subclass none "Base" (some "ns") [("a", 0)] [] none [] false)
+def b2 := apply facts15 1000 b1.heap (.subclass (some 12) "Sub" (some "ns") [("b", 0)] [] none [] false)
+def b3 := apply facts15 1000 b2.heap (.customize 13 [("min_occurs", .int 1)] none (some [("nillable", .bool false)]) none none none)
+def b4 := apply facts15 1000 b3.heap (.mandatory 13)
+def b5 := apply facts15 1000 b4.heap (.array 13 none [] false false)
+example : (obs1 facts15 b2.heap 12).map (·.subs) = some (some [13]) ∧ obs1 facts15 b5.heap 12 = obs1 facts15 b2.heap 12 := by
   decide +kernel
 -- child_attrs_noexc, `order`, serializer_attrs on a concrete history
 def n1 := apply facts15 1000 (initHeap facts15) (.subclass none "NA" (some "ns") [("a", 0), ("b", 1), ("c", 0)] [] none [] false)
